@@ -124,7 +124,8 @@ Step ==
             \* buffer whose capacity is below four, and the vector's length never exceeds its capacity
             LET good == IF e.cap < 4 THEN e.out.k = "err" /\ e.out.bytes = e.pre /\ e.out.fits
                         ELSE e.out.k = "ok" /\ e.out.bytes = e.pre \o e.hdr /\ e.out.fits IN
-            /\ bad' = IF good THEN bad ELSE AddBad(bad, BadEntry(l, {"C04"}, "header serialisation"))
+            \* (the four bytes in the wrong place are a wrong wire image, C01, as much as a buffer matter, C04)
+            /\ bad' = IF good THEN bad ELSE AddBad(bad, BadEntry(l, {"C01", "C04"}, "header serialisation"))
             /\ UNCHANGED << pkt, tkl, live >>
        [] e.op = "to_bytes" ->
             LET j == JudgeToBytes(e) IN
